@@ -25,7 +25,7 @@ PROPS = {
         ],
     },
     "C03": {
-        "modules": ["Hannibal.Props.C03"],
+        "modules": ["Hannibal.Props.C03", "Hannibal.Props.C03Current"],
         "theorems": ["Hannibal.C03_holds", "Hannibal.C03_current"],
         "cases": {"quick": {"C03": 1500}, "thorough": {"C03": 20000, "C13": 3000, "C07": 3000}},
         "assumptions": COMMON_ASSUMPTIONS + [
@@ -62,6 +62,15 @@ PROPS = {
         "assumptions": [
             "rustc's trait solver is modelled only for the bound shapes that occur in hannibal's API surface",
             "the catalogue is the tie between that abstraction and rustc (53 programs, 21 entry points)",
+        ],
+    },
+    "C13": {
+        "modules": ["Hannibal.Props.C13", "Hannibal.Props.C13Current"],
+        "theorems": ["Hannibal.C13_holds", "Hannibal.C13_current"],
+        "cases": {"quick": {"C13": 1500}, "thorough": {"C13": 20000, "C03": 3000}},
+        "assumptions": COMMON_ASSUMPTIONS + [
+            "quiescence clauses (monC13q: ends with the stream / on stop / on last drop; every yielded item handled) are judged on real traces only",
+            "the loop's random tie-break is exercised by seeds and schedules; the model allows both outcomes",
         ],
     },
     "C12": {
